@@ -46,7 +46,7 @@ def required_counters(tier):
     forms = ["comma", "trailing#", "ellipsis-with-more", "repeat#", "repeat*", "repeat_", "repeat?", "anon+bcast",
              "fixed+variadic", "fixed+anon", "fixed+tree", "symbolic+anon", "symbolic+variadic", "symbolic+tree", "two-variadics", "nonstring"]
     d = {"illegal." + f: 1 for f in forms}
-    d.update({"tokens.built": 20000, "tokens.accepted": 500, "tokens.valueerror": 5000, "groups.vector_compared": 100, "sequences": 1000, "ellipsis_equiv": 1})
+    d.update({"tokens.built": 20000, "tokens.accepted": 500, "tokens.valueerror": 5000, "groups.vector_compared": 100, "sequences": 1000, "ellipsis_equiv": 1, "nested_builds": 1000, "nested_builds.illegal": 100})
     return d
 
 
@@ -179,6 +179,45 @@ def run_sequence(rec, rng):
         rec.count("whitespace_compared")
 
 
+NEST_TOKENS = ["a", "b", "3", "_", "#a", "*v", "*w", "...", "*_", "_*", "*_foo", "*#v", "?a", "a+1", "d=3", "", "*?v", "x=..."]
+
+
+def run_nested_build(rec, rng):
+    """a shape spread over a nested annotation, Outer[Inner[A, inner], outer], is one dim string "outer inner":
+    legal exactly when that is legal, ValueError otherwise - and never anything else"""
+    import jaxtyping
+
+    inner = " ".join(rng.choice(NEST_TOKENS) for _ in range(rng.choice((0, 1, 1, 2, 3)))).strip()
+    outer = " ".join(rng.choice(NEST_TOKENS) for _ in range(rng.choice((0, 1, 1, 2)))).strip()
+    gi, inner_ann = build(inner)
+    if gi != "ok" or model_build(inner)[0] != "ok":
+        return
+    try:
+        ann = jaxtyping.Shaped[inner_ann, outer]
+        got = "ok"
+    except ValueError:
+        got, ann = "valueerror", None
+    except Exception as e:  # noqa
+        got, ann = "exc:" + type(e).__name__, None
+    combined = (outer + " " + inner).strip()
+    exp, info = model_build(combined)
+    if model_build(outer)[0] != "ok":
+        exp = "valueerror"
+    rec.count("nested_builds")
+    rec.case(("nested", inner, outer), True)
+    if exp == "valueerror":
+        rec.count("nested_builds.illegal")
+    case = {"inner": inner, "outer": outer}
+    if got.startswith("exc:"):
+        rec.violation("totality", case, f"building Shaped[Shaped[A, {inner!r}], {outer!r}] raised {got[4:]}, not ValueError", mechanism="nested-build-raises-" + got[4:])
+    elif got != exp:
+        rec.violation("legality", case, f"Shaped[Shaped[A, {inner!r}], {outer!r}] means {combined!r}: documented grammar says {exp} ({info}), real {got}", mechanism=f"nested-model-{exp}-real-{got}")
+    elif got == "ok":
+        g2, flat = build(combined)
+        if g2 == "ok" and vec(ann) != vec(flat):
+            rec.violation("legality", case, f"Shaped[Shaped[A, {inner!r}], {outer!r}] and Shaped[A, {combined!r}] accept differently", mechanism="nested-differs-from-flat")
+
+
 NONSTRINGS = [None, 3, b"a b", ("a",), ["a"], 3.0, int, object(), True, {"a": 1}, 1j, frozenset()]
 
 
@@ -230,6 +269,8 @@ def run_shard(rec, seed, shard, tier):
     rec.info["groups_total"] = len(gs) if shard["i"] == 0 else 0
     for k in range(SEQ_CASES[tier]):
         run_sequence(rec, random.Random(f"{seed}/C14/{shard['i']}/{k}"))
+        if k % 3 == 0:
+            run_nested_build(rec, random.Random(f"{seed}/C14/{shard['i']}/nested{k}"))
     if shard["i"] == 0:
         run_nonstrings(rec)
         run_equivalences(rec)
